@@ -16,6 +16,7 @@ CONSTANTS
   Weak_NoCentre = FALSE
   Weak_TieHighAddr = FALSE
   Weak_FloorDiv = FALSE
+  Weak_RoundSkipSingleIncrement = FALSE
   Weak_LoadSingleIncrement = FALSE
   Weak_LoadNoIncrement = FALSE
   Weak_LoadOffByOne = FALSE
@@ -25,6 +26,6 @@ CONSTANTS
   Weak_RecoveryCopyDropsValUpdates = FALSE
 INIT Init
 NEXT Next
-INVARIANTS LookupExact RecoveryExact PruneKeeps TruthWellFormed ProposerIsMember PruneNeverFails
+INVARIANTS LookupExact RecoveryExact ProposerDeterministic PruneKeeps TruthWellFormed ProposerIsMember PruneNeverFails
 VIEW View
 CHECK_DEADLOCK FALSE
